@@ -95,6 +95,10 @@ func Build(idx int, spec scn.DocSpec) *Doc {
 	return d
 }
 
+// StringValue is what the navigator's Value() answers on n (harness-side
+// observation: no step, no hook).
+func (n *Node) StringValue() string { return n.value }
+
 func (d *Doc) add(n *Node) {
 	n.ID = len(d.Nodes)
 	d.Nodes = append(d.Nodes, n)
@@ -268,12 +272,23 @@ func (n *Nav) MoveToPrevious() bool {
 func (n *Nav) MoveTo(o xpath.NodeNavigator) bool {
 	n.fire(MMoveTo)
 	on, ok := o.(*Nav)
-	if !ok || on.Doc != n.Doc {
+	if !ok {
 		return false
+	}
+	if on.Doc != n.Doc {
+		if !LooseMoveTo.Load() {
+			return false
+		}
+		n.Doc = on.Doc
 	}
 	n.cur, n.attr = on.cur, on.attr
 	return true
 }
+
+// LooseMoveTo (set per run): MoveTo does not check that the other navigator is
+// on the same document; it adopts the other's document and position, as a
+// navigator whose MoveTo is a plain struct copy does.
+var LooseMoveTo atomic.Bool
 
 // IDer is what the harness needs from whatever navigator the engine hands back.
 type IDer interface{ ID() int }
